@@ -9,5 +9,5 @@ rsync -a --exclude .git /repo/ "$d/repo/"
 mkdir -p "$d/verif"; cp /verif/known_findings.json "$d/verif/" 2>/dev/null
 ( cd "$d/repo" && patch -p1 $rev --no-backup-if-mismatch -s < "$patch" ) || { echo "PATCH FAILED"; exit 3; }
 ( cd "$d/repo" && go build ./... ) || { echo "BUILD FAILED"; exit 3; }
-/verif/bin/kbcheck -prop "$props" -tier quick -repo "$d/repo" -verif "$d/verif" | grep -v "^  rule\|^  control" | sed "s#$d/##g"
+${KBCHECK:-/verif/bin/kbcheck} -prop "$props" -tier quick -repo "$d/repo" -verif "$d/verif" | grep -v "^  rule\|^  control" | sed "s#$d/##g"
 echo "exit=${PIPESTATUS[0]}"
